@@ -139,11 +139,17 @@ def do_check(pid, tier, keep=False, only=None):
                 # confirms it: CBMC's SMT2 output over-approximates some operations (observed: a
                 # spurious chrono::expect panic through checked_mul under the cvc5 flavour).
                 if cur in ('cvc5', 'cvc5-fpa') and u.harness[hn].get('expect') != 'canary' and not r['killed'] and 'VERIFICATION:- FAILED' in r['out'] and 'CBMC failed with status' not in r['out']:
-                    r2 = kr.run_harness(u, hn, solver_override='cadical', timeout=u.harness[hn].get('fallback_timeout', 400))
-                    r2['wall_s'] += r['wall_s']
-                    r2['fallback_from'] = cur + ' reported a failure; re-decided by the SAT back end'
-                    r2['final_solver'] = 'cadical'
-                    r = r2
+                    r2 = kr.run_harness(u, hn, solver_override='cadical', timeout=u.harness[hn].get('confirm_timeout', 150))
+                    if r2['killed']:
+                        # SAT cannot re-decide it in time (float multipliers): keep the SMT verdict, but it only
+                        # counts as a violation if its counterexample fails when replayed natively on the real code
+                        r['needs_native'] = True
+                        r['wall_s'] += r2['wall_s']
+                    else:
+                        r2['wall_s'] += r['wall_s']
+                        r2['fallback_from'] = cur + ' reported a failure; re-decided by the SAT back end'
+                        r2['final_solver'] = 'cadical'
+                        r = r2
                 return (kr, u, hn), r
 
             with ThreadPoolExecutor(max_workers=workers) as ex:
@@ -216,7 +222,7 @@ def do_check(pid, tier, keep=False, only=None):
                             rec['status'] = 'KNOWN-FINDING ' + kf_id
                             rec['known_finding'] = True
                         else:
-                            hv.append({'unit': u, 'harness': hn, 'clause': clause, 'oid': oid, 'detail': detail, 'kani_out': r['out'], 'krun': krun, 'solver': r.get('final_solver'),
+                            hv.append({'unit': u, 'harness': hn, 'clause': clause, 'oid': oid, 'detail': detail, 'kani_out': r['out'], 'krun': krun, 'solver': r.get('final_solver'), 'needs_native': r.get('needs_native'),
                                        'descs': sorted(res['obl_desc'].get(clause, [])) if clause != 'no_panic' else [d['desc'] for d in res['panics']]})
                     elif st == 'UNREACHABLE':
                         undecided.append(f'{u.name}:{hn}: vacuity guard: clause {clause} unreachable')
@@ -267,8 +273,12 @@ def do_check(pid, tier, keep=False, only=None):
         vio_lines = []
         if violations and not undecided_blocks(undecided):
             os.makedirs(REPLAYS, exist_ok=True)
-            for v in violations:
+            for v in list(violations):
                 path, has_input = make_replay(pid, v, v.get('krun'))
+                if v.get('needs_native') and not has_input:
+                    violations.remove(v)
+                    undecided.append(f'{v["unit"].name}:{v["harness"]}: the SMT back end reports {v["clause"]} failing, the SAT back end could not re-decide it in time and no counterexample reproduced natively ({path})')
+                    continue
                 vio_lines.append(f'VIOLATION property={pid} replay={path}' + ('' if has_input else ' no-failing-input-found'))
     finally:
         for kr in kruns:
